@@ -1263,7 +1263,16 @@ func (ex *Explorer) callEvent(c *Ctx, call *ast.CallExpr, cond bool) {
 // Is reports whether f is the function/method named name declared in package path pkg
 // (full import path) with receiver type name recv ("" for package-level functions; for
 // interface methods recv is the interface's name).
+// Aliases maps "pkgpath|recv|name" of a private function that was renamed to the function
+// that now plays its role (installed per loaded world by the rules' role finders).
+var Aliases = map[string]*types.Func{}
+
 func Is(f *types.Func, pkg, recv, name string) bool {
+	if f != nil && f.Name() != name && len(Aliases) > 0 {
+		if a, ok := Aliases[pkg+"|"+recv+"|"+name]; ok {
+			return a == f
+		}
+	}
 	if f == nil || f.Name() != name || f.Pkg() == nil || f.Pkg().Path() != pkg {
 		return false
 	}
